@@ -82,9 +82,11 @@ impl Mon<T, T> {
         let loc0 = if op_has_key(op.code) { Some(self.locate(op.k)) } else { None };
         let before = self.model.clone();
         let _ = take_violations();
+        visited_reset();
         fuse_begin(Some((kind, index)));
         let r = catch(|| self.exec(op, &st0, loc0));
         let (_counts, fired) = fuse_end();
+        let visited = visited_take();
         let enc = op.encode();
         match r {
             Ok(Ok(_)) => {
@@ -232,6 +234,14 @@ impl Mon<T, T> {
                     let wrongly: Vec<u64> = lost.iter().copied().filter(|k| if op.code == Code::Retain { pred.eval(*k) } else { !pred.eval(*k) }).collect();
                     if wrongly.len() > 1 {
                         viol!("C07", "elements the predicate wanted to keep were lost {ctx}: {:?}", wrongly);
+                    }
+                    // retain stops at the panic: what it had not looked at yet stays
+                    // (drain_filter's destructor goes on by design)
+                    if op.code == Code::Retain && kind == Cb::Closure {
+                        let later: Vec<u64> = visited.iter().skip(index as usize).copied().filter(|k| lost.contains(k)).collect();
+                        if !later.is_empty() {
+                            viol!("C07", "retain went on after its predicate panicked and removed {:?} {ctx} (at most the element handed to the panicking call may go)", later);
+                        }
                     }
                 } else if lost.len() == 1 && !removing && !(op_has_key(op.code) && lost[0] == op.k) {
                     viol!("C07", "element {} lost {ctx}", lost[0]);
